@@ -296,7 +296,7 @@ def gen_core(ctx):
                                                   quals=[1, 40, 60, 256, 300, 10], recomb_choices=(46, 60, 100, 1000)), False))
     for _ in range(ctx.n(10, 150)):
         out.append(("single-zero-prior", G.make_instance(rng, nind=1, trios=(), max_reads=4, max_cols=5, prior_mode="zero"), False))
-    for _ in range(ctx.n(4, 60)):
+    for _ in range(ctx.n(4, 24)):
         out.append(("single-wide", G.make_instance(rng, nind=1, trios=(), min_reads=7, max_reads=8, min_cols=2, max_cols=3,
                                                    quals=nice["quals"], prior_mode="nice"), False))
     out.append(("empty", {"ncols": 0, "nind": 1, "trios": [], "reads": [], "priors": [[]], "recomb": []}, False))
@@ -312,7 +312,7 @@ def gen_core(ctx):
         res.append((label, inst, plain))
     out = res
     # long matrices (9-20 columns) with non-uniform coverage profiles: check-pointing with re-computation
-    for _ in range(ctx.n(30, 600)):
+    for _ in range(ctx.n(30, 400)):
         out.append(("single-profile", G.make_profile_instance(rng, nind=1, trios=()), False))
     for _ in range(ctx.n(3, 40)):
         out.append(("trio-profile", G.permute_individuals(rng, G.make_profile_instance(
@@ -933,7 +933,7 @@ def run(ctx):
         ctx.sample({"inst": rec["inst"], "impl": rec["impl"].get("ok"), "checks": rec["ok"]})
     report_core(ctx, records)
     ctx.extra["core_checks"] = {k: sum(1 for r in records if k in r["ok"]) for k in ("L2", "L1chain", "L1thm", "L1plain", "L1sum")}
-    check_cli(ctx, ctx.n(24, 168))
+    check_cli(ctx, ctx.n(24, 120))
 
 
 def replay(ctx, data):
